@@ -190,6 +190,13 @@ def handle : Handler := fun st op j =>
     let av ← getNat j "a"
     let kv ← getOptInt j "k"
     let rp : RangeProof := { cs := List.replicate n (some 1), ds := [], vs := [], v5 := none, ld := 0, sign := sgn, a := av, k := kv }
+    -- "extractkey": only descriptors ExtractStructure lets through belong to verified proofs
+    let passes ← match (getStr j "extractkey").toOption with
+      | some kid => do
+        let pk ← st.key kid
+        pure (rp.extractStructure 1 pk).isSome
+      | none => pure true
+    if !passes then return (st, "turned-away")
     -- what is reported must follow from the established fact sign*(A*m - K) >= 0 on the box
     let holds (sg : Int) (f : Int) (b : Int) (m : Int) : Bool :=
       if sg == 1 then decide (f * m - b ≥ 0) else decide (f * m - b ≤ 0)
